@@ -30,6 +30,9 @@ OVERRIDES = {
     "C17-8A": (["--features", "std"], None), "C17-8B": (["--no-default-features", "--features", "x25519"], None),
     "C07-9A": (["--features", "std"], None), "C17-9A": (["--no-default-features", "--features", "x25519"], None),
     "C17-9B": (["--release"], None), "C02-9B": ([], True), "C04-9B": (["--release"], None),
+    "C02-0B": (["--features", "p384"], None), "C09-0A": ([], False), "C09-0B": (["--features", "std"], None),
+    "C14-0B": (["--no-default-features", "--features", "std x25519"], True), "C17-0A": (["--no-default-features", "--features", "p384"], None),
+    "C17-0B": ([], False), "C08-0A": (["--no-default-features", "--features", "x25519 p256"], None),
 }
 
 
